@@ -302,8 +302,14 @@ def family_b2():
                 "prc[m] : lin 1 = p <- new mk(); r <- new rd(p); wait r; print fin; close self\n"))
     # the demo shape: bound, handed to a spawned call that hands it back, re-bound by the receive
     out.append(("B2:handback", "type S = lin +{l : 1}\ntype P = lin (1 * S)\nlet f(x : lin 1) : P = z : lin 1 <- new close self; b : S <- new self.l<z>; send self<x, b>\n"
-                "let g(x : lin 1) : lin 1 = y <- new f(x); <k, x> <- recv y; wait k; case x (l<v> => wait v; print ok; close self)\n"
+                "let g(x : lin 1) : lin 1 = y <- new f(x); <k, x> <- recv y; case x (l<v> => wait v; wait k; print ok; close self)\n"
                 "prc[m] : lin 1 = a : lin 1 <- new close self; r <- new g(a); wait r; print fin; close self\n"))
+    out.append(("B2:handback-prc", "type S = lin +{l : 1}\ntype P = lin (1 * S)\nlet f(x : lin 1) : P = z : lin 1 <- new close self; b : S <- new self.l<z>; send self<x, b>\n"
+                "prc[m] : lin 1 = x : lin 1 <- new close self; y <- new f(x); <k, x> <- recv y; case x (l<v> => wait v; wait k; print ok; close self)\n"))
+    out.append(("B2:handback-payload", "type S = lin +{l : 1}\ntype P = lin (S * 1)\nlet f(x : lin 1) : P = z : lin 1 <- new close self; b : S <- new self.l<z>; send self<b, x>\n"
+                "prc[m] : lin 1 = x : lin 1 <- new close self; y <- new f(x); <x, k> <- recv y; case x (l<v> => wait v; wait k; print ok; close self)\n"))
+    out.append(("B2:handback-case", "type S = lin +{l : 1}\ntype C = lin +{c : S}\nlet f(x : lin 1) : C = wait x; z : lin 1 <- new close self; b : S <- new self.l<z>; self.c<b>\n"
+                "prc[m] : lin 1 = x : lin 1 <- new close self; y <- new f(x); case y (c<x> => case x (l<v> => wait v; print ok; close self))\n"))
     return out
 
 
